@@ -298,4 +298,22 @@ def run(ctx, rep):
             rep.ok("C12.routes", "Forest::to_witness_node", "returns a ConstructNode: must pass finalize_unpruned")
         else:
             rep.violation("C12.routes", "Forest::to_witness_node", "returns %s" % rt, f.where())
+    # ---------- C12.sharing: nodes that already carry witness values are converted with their sharing kept ----------
+    rep.rule("C12.sharing", "conversions of redeem-time nodes keep pointer-shared nodes shared (never NoSharing)")
+    n_sh = 0
+    for p_, f_ in sorted(F.fns.items()):
+        if "Node<simplicity::node::redeem::Redeem>" not in p_:
+            continue
+        for cs in f_.calls():
+            if cs.name == "convert" and "node::Node" in (cs.callee or "") and len(cs.f.get("args", [])) >= 4:
+                n_sh += 1
+                S = cs.f["args"][1]
+                who_ = p_.split(">>::", 1)[-1]
+                if S.endswith("dag::NoSharing"):
+                    rep.violation("C12.sharing", who_ + ":NoSharing", "%s converts a redeem-time program under NoSharing: a witness node referenced from several places "
+                                  "is copied once per reference; each copy is re-typed on its own but keeps the one old value, so finalising again "
+                                  "attaches a value to a node of another type (and the DAG is unfolded into a tree)" % who_, cs.where())
+                else:
+                    rep.ok("C12.sharing", who_, S.rsplit("::", 1)[-1])
+    rep.floor("C12.sharing", n_sh, 5)
     return FINISH
